@@ -34,11 +34,17 @@ def classify_line(line):
     return ("other",)
 
 
+def instruction_text(text):
+    """The instruction itself: objdump -w -r appends the relocation record to the line after a TAB (`mov %rax,%rcx<TAB>a: R_X86_64_32<TAB>foo`);
+    inside the instruction text (mnemonic, blanks, operands, blanks, annotation or comment) there is no TAB."""
+    return text.split("\t")[0].rstrip()
+
+
 def expected_mnemonics(text):
     """The acceptable spellings of 'that line's mnemonic' (first token of the instruction text) after the
     documented rewrites: a `data16 ` prefix is dropped, `(bad)` may be spelled `bad`, and a branch-hint suffix
     (`jne,pn`, `jle,pt`) is not part of the mnemonic (the comma is the stream's field separator, C10)."""
-    t = text.replace("data16 ", "")
+    t = instruction_text(text).replace("data16 ", "")
     tok = t.split(" ")[0] if t else ""
     out = {tok}
     if tok == "(bad)":
@@ -67,7 +73,7 @@ def line_operand_count(text):
     """Number of operands on an instruction line as objdump printed it: the operand text (second blank-separated word of the
     instruction text, before any annotation or comment) split at commas outside parentheses.  None for lines that start with a
     prefix word (open finding F15 decides what their operands are)."""
-    t = text.replace("data16 ", "")
+    t = instruction_text(text).replace("data16 ", "")
     toks = t.split(None, 1)
     if not toks or toks[0] in PREFIX_WORDS or toks[0].startswith(("rex", "{")):
         return None
